@@ -11,17 +11,21 @@ from checklib import codec
 from checklib.model import run_model
 
 MANIFEST = dict(
-    technique="Coq proof (structural recursion on the nesting budget, list/string lemmas) + extracted-model correspondence in temp directory trees",
-    text=("Coq theorems (Props/C15.v): for every file system, working directory, root file name and text the function-by-function model of "
-          "Parser.load_includes equals textual substitution (Spec/Subst.v) with the code's own line reader, names resolved against the ROOT "
-          "file's folder at every depth, budget five; the includes-dict + pop/insert loop is proved equal to a map over lines; fuel 6 never runs out; "
-          "deeper or cyclic inclusion is Err ValueError, a missing file Err IOError, success iff the include tree has depth <= 5; the expansion is "
-          "free of directives so open(root) hands the LALR parser the same text as loads(flattened); with an absolute root name the result does not "
-          "depend on the working directory; with expand_includes=False the text is untouched.  The code's line reader equals the specification's "
-          "directive reader under an explicit guard (name without blanks / hash sign / outer quote characters); the unguarded statement is refuted "
-          "in Coq by witnesses (quoted name with a blank, bare INCLUDE, keyword that merely starts with include).  The model is tied to parser.py / "
-          "utils.py by running the extracted model and the real code on random include trees in temp directories (open, load, loads, several "
-          "working directories), on all short path strings (posixpath helpers) and on all short directive lines."),
+    technique="Coq proof (structural recursion on the nesting budget, list/string/path lemmas) + extracted-model correspondence in temp directory trees",
+    text=("Coq theorems (Props/C15.v, 23, all closed): for every file system, absolute working directory, root file name (or none) and text, the "
+          "function-by-function model of Parser.load_includes equals textual substitution (Spec/Subst.v) for the line reader the code implements, "
+          "names resolved against the ROOT file's folder at every nesting level, budget five; the includes-dict + pop/insert loop is proved equal to a "
+          "map over lines; the string-level posixpath computation (isabs/dirname/join/abspath-normpath) is proved to denote the specification's "
+          "location; fuel 6 is never exhausted; expansion succeeds iff the include tree is complete and at most five files deep, a chain of six and "
+          "every cycle is an error (ValueError when no file is missing), a missing file is IOError, the first failing line decides; the expansion is free "
+          "of directives, so open(root) hands the Mapfile parser the same text as loads(flattened) from any working directory; with an absolute root "
+          "name the working directory is irrelevant; with expand_includes=False the text reaches the parser untouched (transformer/printer half: hunter "
+          "only, hence _partial).  The property's own directive reader (either quote kind, trailing comment, any blanks) equals the code's under an "
+          "explicit boolean guard (name without white space, hash sign, outer quote characters); the unguarded statements are refuted in Coq by "
+          "witnesses (quoted name with a blank or a hash sign, bare INCLUDE, keyword that merely starts with include).  The model is tied to parser.py / "
+          "utils.py by running the extracted model and the real code on random include trees in temp directories (open, load, loads; several working "
+          "directories), on all short path strings and on all short directive lines; the extracted specification is cross-checked against an "
+          "independent Python substitution, which is what the hunter compares the real API with."),
     design_ref="DESIGN.md 7/C15",
     note=("C15: posixpath, str methods, text-mode newline translation and the kernel path walk are modelled (Model/Includes.v): no symlinks, every "
           "directory on a path exists, no NUL/surrogates in names, UTF-8 decoding not modelled. The transformer/printer half of the "
